@@ -9,6 +9,8 @@ import (
 	"regexp"
 	"strconv"
 	"strings"
+	"time"
+	"unicode/utf8"
 
 	"mvdan.cc/sh/v3/syntax"
 	"mvdan.cc/sh/v3/syntax/typedjson"
@@ -174,7 +176,8 @@ func c07State(st syntax.VerifLexState) string {
 }
 
 func c07SpecState(st syntax.VerifLexState) string {
-	return fmt.Sprintf("L %d %d %d %d %d %d %d %s %s", st.Line, st.Col, st.R, st.W,
+	// ok=1: the harness only emits programs inside the client protocol (the Lean side recomputes it)
+	return fmt.Sprintf("L %d %d %d %d %d %d %d %s %s ok=1", st.Line, st.Col, st.R, st.W,
 		st.LastBquoteEsc, st.OpenBquotes, st.OpenBquoteDbls, c07Err(st), c07Lit(st))
 }
 
@@ -287,12 +290,41 @@ func c07TieSkip(st syntax.VerifLexState, op string) bool {
 // c07Run runs ops over (input, sched, eofWith) and renders the answer like the Lean driver.
 // In spec mode ops outside the protocol are dropped; the ops really executed are returned.
 func c07Run(input string, sched []int, eofWith bool, stop string, ops []string, spec bool) (string, []string) {
+	return c07RunDrop(input, sched, eofWith, stop, ops, spec, nil)
+}
+
+// c07Panicky: ops that make the Go code panic in the current state (kept in the tie stream with a
+// small probability only, so that sequences are not cut short all the time).
+func c07Panicky(st syntax.VerifLexState, op string) bool {
+	switch op[0] {
+	case 'z':
+		return st.Bsp > st.Len
+	case 'f':
+		return st.Bsp > st.Len && !st.ReadEOF && st.R != syntax.VerifRuneEOF
+	case 'e':
+		return st.R != syntax.VerifRuneEOF && st.R != syntax.VerifEscNewl && len(st.Lit) < st.W
+	case 'n':
+		r := st.R
+		if op != "nc" {
+			n, _ := strconv.Atoi(op[1:])
+			r = rune(n)
+		}
+		if r < 0x80 || r == syntax.VerifRuneEOF || r == syntax.VerifEscNewl {
+			return false
+		}
+		w := utf8.RuneLen(r)
+		return w < 0 || st.Bsp < w
+	}
+	return false
+}
+
+func c07RunDrop(input string, sched []int, eofWith bool, stop string, ops []string, spec bool, drop func(syntax.VerifLexState, string) bool) (string, []string) {
 	rd := &c07Reader{data: []byte(input), sched: sched, eofWith: eofWith}
 	v := syntax.NewVerifLexer(rd, syntax.LangBash, stop)
 	var out []string
 	var done []string
 	for _, op := range ops {
-		if (spec && c07SpecSkip(v.State(), op)) || (!spec && c07TieSkip(v.State(), op)) {
+		if (spec && c07SpecSkip(v.State(), op)) || (!spec && c07TieSkip(v.State(), op)) || (drop != nil && drop(v.State(), op)) {
 			continue
 		}
 		done = append(done, op)
@@ -326,13 +358,22 @@ func c07Run(input string, sched []int, eofWith bool, stop string, ops []string, 
 var c07Alpha = []string{
 	"a", "b", "x", "echo", " ", " ", "\n", "\n", "\r\n", "\r", "\x00", "\\", "\\", "\\\n", "\\\r\n", "`", "`",
 	"$", "\"", "'", "<", "-", ">", "1", "10", "(", ")", "@", "=", "~", "^", "{", "}", "#", ";",
-	"é", "€", "𝄞", "\xff", "\xc3", "\xe2\x82", "\xf0\x9d\x84", "\xed\xa0\x80", "\xef\xbf\xbd",
+	"é", "€", "𝄞", "\xef\xbf\xbd",
 }
+
+// invalid / truncated encodings (an "invalid UTF-8 encoding" error ends the lexing)
+var c07Bad = []string{"\xff", "\xc3", "\xe2\x82", "\xf0\x9d\x84", "\xed\xa0\x80", "\xc0\x80", "\xf4\x90\x80\x80"}
 
 // c07Input draws an input; about a third are padded so that the interesting bytes sit around a
 // multiple of the 1 KiB buffer size.
 func c07Input(r *Rand, thorough bool) (string, int) {
 	core := genFrom(r, c07Alpha, 24)
+	if r.Chance(25) {
+		core += r.Pick(c07Bad) + genFrom(r, c07Alpha, 4)
+		if r.Chance(30) {
+			core = r.Pick(c07Bad) + core
+		}
+	}
 	switch r.Intn(10) {
 	case 0, 1, 2:
 		// pad to the buffer edge: the core starts a few bytes before k*bufSize
@@ -629,11 +670,11 @@ func c07SearchInput(c *Ctx, r *Rand, src string, l syntax.LangVariant, tags []st
 		kinds++
 	}
 	nontrivial := strings.ContainsAny(src, "\\`$\"'<(\x00\r") || n > syntax.VerifBufSize-16
-	c.Case("parse/"+langName(l)+"/"+src, nontrivial, append(tags, "search-"+langName(l), fmt.Sprintf("search-schedules=%d", bucket(kinds)))...)
-	c.Extra["search_parses"] = toInt(c.Extra["search_parses"]) + kinds + 1
+	c.Case("parse/"+langName(l)+"/"+src, nontrivial, append(tags, "search-"+langName(l), fmt.Sprintf("search-schedules=%d", c07Bucket(kinds)))...)
+	c.Extra["search_parses"] = c07Int(c.Extra["search_parses"]) + kinds + 1
 }
 
-func bucket(n int) int {
+func c07Bucket(n int) int {
 	switch {
 	case n <= 8:
 		return 8
@@ -643,7 +684,7 @@ func bucket(n int) int {
 	return 64
 }
 
-func toInt(v any) int {
+func c07Int(v any) int {
 	if i, ok := v.(int); ok {
 		return i
 	}
@@ -669,11 +710,15 @@ func c07Pad(r *Rand, src string) (string, string) {
 	case 1:
 		pad = strings.Repeat(" ", edge-1) + "\n"
 	default:
-		pad = ":" + strings.Repeat(" a", (edge-2)/2)
-		for len(pad) < edge-1 {
-			pad += " "
+		// one long word / quoted string: few nodes, many bytes
+		if r.Bool() {
+			pad = ": '" + strings.Repeat("q", edge-5) + "'\n"
+		} else {
+			pad = ": " + strings.Repeat("w", edge-3) + "\n"
 		}
-		pad += "\n"
+		if edge < 6 {
+			pad = strings.Repeat(" ", edge-1) + "\n"
+		}
 	}
 	return pad + src, "pad-edge"
 }
@@ -717,6 +762,8 @@ func c07(c *Ctx) {
 		c07Replay(c, l)
 	}
 	r := c.R
+	t0 := time.Now()
+	defer func() { c.Extra["search_seconds"] = int(time.Since(t0).Seconds()) }()
 	// ---- tie + spec streams ----
 	for i := 0; i < c.N; i++ {
 		input, padLen := c07Input(r, c.Thorough())
@@ -724,9 +771,12 @@ func c07(c *Ctx) {
 		if r.Chance(25) {
 			stop = r.Pick([]string{"$$", "a", "é", "\\x", "$$$$"})
 		}
-		ops := c07Ops(r, len(input), padLen, false, true)
 		eofWith := r.Chance(30)
-		for si, sc := range c07Scheds(r, len(input)) {
+		scheds := c07Scheds(r, len(input))
+		// select the ops on the single-read schedule: panicking ops are mostly dropped
+		_, ops := c07RunDrop(input, scheds[0], eofWith, stop, c07Ops(r, len(input), padLen, false, true), false,
+			func(st syntax.VerifLexState, op string) bool { return c07Panicky(st, op) && r.Chance(93) })
+		for si, sc := range scheds {
 			got, done := c07Run(input, sc, eofWith, stop, ops, false)
 			c.Op(fmt.Sprintf("run %s %s %s %s %s", hx(input), c07SchedStr(sc), map[bool]string{false: "0", true: "1"}[eofWith], hx(stop), strings.Join(done, " ")), got)
 			if si == 0 {
@@ -752,6 +802,8 @@ func c07(c *Ctx) {
 		c.Op(fmt.Sprintf("specrun %s - %s", hx(input), strings.Join(sdone, " ")), got)
 		c.Case("spec/"+input+"/"+strings.Join(sops, " "), len(input) > 0, "spec")
 	}
+	c.Extra["tie_seconds"] = int(time.Since(t0).Seconds())
+	t0 = time.Now()
 	// ---- search leg ----
 	seeds := repoSeeds()
 	nSearch := c.N * 3 / 20
